@@ -139,7 +139,10 @@ def gen_plan(rng):
             'start_delay': rng.choice([0, 0, 1, 3]),
             # tunnel drivers: through the existing connection, or let
             # asyncssh open (and own) the intermediate connection
-            'via': rng.choice(['conn', 'conn', 'string']),
+            'via': rng.choice(['conn', 'conn', 'string', 'string2',
+                               'string2x']),
+            # the inner server may be unreachable (nobody listens there)
+            'inner_up': not rng.chance(15),
         })
 
     fk = rng.weighted([('rst', 30), ('eof', 20), ('stall', 10),
@@ -318,8 +321,9 @@ class OpsServer(RecServer):
                              orig_port):
         run = self.run
 
-        if dest_port == 2222:
-            # a tunnelled SSH connection: relay to the inner server for real
+        if dest_port in (2222, 2223, 22):
+            # a tunnelled SSH connection: relay for real (2223: nobody
+            # listens; 22: a further hop through this same server)
             return True
 
         sess = TSess(run, 'St%d' % (dest_port - 1000))
@@ -492,11 +496,18 @@ class Run:
 
                 # (keepalive, needed for stall faults, is a listener-wide
                 # option: an extra healthy connection would never go quiet)
-                if ch.get('via') == 'string' and \
+                iport = 2222 if ch.get('inner_up', True) else 2223
+
+                if ch.get('via') in ('string', 'string2', 'string2x') and \
                         self.plan['fault']['kind'] != 'stall':
                     sim.probes['tunnel_by_name'] += 1
+                    # string2x: the second hop refuses the connection
+                    hops = {'string': '127.0.0.1:22',
+                            'string2': '127.0.0.1:22,127.0.0.1:22',
+                            'string2x': '127.0.0.1:22,127.0.0.1:2223'}[
+                                ch['via']]
                     conn2 = await asyncssh.connect(
-                        'inner', 2222, tunnel='127.0.0.1:22',
+                        'inner', iport, tunnel=hops,
                         client_factory=cfactory,
                         **client_opts(config=[os.path.join(sandbox(),
                                                            'ssh_config')],
@@ -504,7 +515,7 @@ class Run:
                     self.own_tunnels.append(conn2)
                 else:
                     conn2 = await asyncssh.connect(
-                        'inner', 2222, tunnel=conn, client_factory=cfactory,
+                        'inner', iport, tunnel=conn, client_factory=cfactory,
                         **client_opts(**self.ka))
 
                 self.nopened += 1
@@ -777,7 +788,8 @@ def run_plan(plan, sched_seed=None, sched_replay=None):
         if conn_gone():
             # connection is gone: nothing may still be waiting
             indep = {'drv-c%d' % i for i, ch in enumerate(plan['channels'])
-                     if ch['kind'] == 'tunnel' and ch.get('via') == 'string'
+                     if ch['kind'] == 'tunnel' and
+                     ch.get('via') in ('string', 'string2', 'string2x')
                      and f['kind'] != 'stall'}
             hung = [t.sim_name for t in sim.tracked if not t.done() and
                     t.sim_name not in indep]
